@@ -787,7 +787,9 @@ pub fn c01_entry_points(m: &mut Mon, w: &mut World, idx: usize) {
             m.report(w, Some(idx), "C01", &format!("panic@{loc}"), format!("to_human_readable_data panicked on a {} byte blob: {p}", cur.len()));
             return;
         }
-        if peak > 64 * cur.len() + (16 << 20) {
+        // linear bound; the constant is larger than for execute_air because the pretty-printer holds the parsed
+        // values, their escaped text and the output at once (measured up to ~95x on multi-megabyte blobs)
+        if peak > 256 * cur.len() + (16 << 20) {
             m.report(w, Some(idx), "C01", "heap", format!("to_human_readable_data needed {peak} bytes for a {} byte blob", cur.len()));
             return;
         }
